@@ -79,7 +79,9 @@ pub fn cut_outer_edge<T: CoordsFloat>(
         (Some(v1), Some(v2)) => Vertex2::average(&v1, &v2),
         _ => retry()?,
     };
-    map.write_vertex(t, nd1, new_v)?;
+    // nd1 & nd3 already belong to the same (new) vertex, its ID may be either of the two
+    let new_vid = map.vertex_id_transac(t, nd1)?;
+    map.write_vertex(t, new_vid, new_v)?;
 
     map.unsew::<1>(t, ld)?;
     map.unsew::<1>(t, b1ld)?;
@@ -196,7 +198,9 @@ pub fn cut_inner_edge<T: CoordsFloat>(
         (Some(v1), Some(v2)) => Vertex2::average(&v1, &v2),
         _ => retry()?,
     };
-    map.write_vertex(t, nd1, new_v)?;
+    // nd1 & nd3 already belong to the same (new) vertex, its ID may be either of the two
+    let new_vid = map.vertex_id_transac(t, nd1)?;
+    map.write_vertex(t, new_vid, new_v)?;
 
     map.unsew::<2>(t, ld)?;
     map.unsew::<1>(t, ld)?;
